@@ -52,6 +52,8 @@ pub enum TopDec {
     Mismatch(String),
     /// record a marker event (drain start / end, twin marks) and ask again
     Note(Value),
+    /// between connections: set the packet identifier counter through the verification hook
+    SetNextId(u16),
 }
 
 #[derive(Debug, Clone, Default)]
@@ -79,6 +81,10 @@ pub trait Director {
     /// The client polled `read` again without yielding to the executor (a timer that is already
     /// due keeps it spinning): how far does wall-clock time move meanwhile?
     fn spin_adv(&mut self, _view: &View, _n: u32) -> Option<u64> {
+        None
+    }
+    /// ... or does a packet from the broker arrive meanwhile?
+    fn spin_inject(&mut self, _view: &View, _n: u32) -> Option<Vec<u8>> {
         None
     }
 }
@@ -126,9 +132,12 @@ impl Ctx {
         self.spin += 1;
         if self.spin >= 2 {
             let view = self.view();
-            if let Some(to) = self.dir.spin_adv(&view, self.spin) {
+            if let Some(bytes) = self.dir.spin_inject(&view, self.spin) {
+                self.inbound.extend(bytes.iter().copied());
+                self.rec(json!({"e":"b","bytes":bytes}));
+            } else if let Some(to) = self.dir.spin_adv(&view, self.spin) {
                 vclock::set_ms(to);
-                self.rec(json!({"e":"adv","to":vclock::now_ms()}));
+                self.rec(json!({"e":"adv","to":vclock::now_ms(),"spin":true}));
             }
         }
     }
@@ -306,7 +315,7 @@ fn drive<F: Future>(ctx: &Shared, fut: F) -> Outcome<F::Output> {
             }
             PendDec::Adv(to) => {
                 vclock::set_ms(to);
-                c.rec(json!({"e":"adv","to":vclock::now_ms()}));
+                c.rec(json!({"e":"adv","to":vclock::now_ms(),"spin":false}));
             }
             PendDec::Inject(bytes) => {
                 c.inbound.extend(bytes.iter().copied());
@@ -418,7 +427,7 @@ fn opt_num<T: Into<i64>>(v: Option<T>) -> i64 {
 /// The call event as the TLA+ side reads it (no nulls, no absent fields, no 64-bit numbers).
 pub fn call_tla(step: &Step, hn: usize) -> Value {
     match step {
-        Step::Publish { qos, topic, payload, retain, props, corr, payload_fails } => json!({
+        Step::Publish { qos, topic, payload, retain, props, corr, payload_fails, corr_first: _ } => json!({
             "e":"publish","call":true,"hn":hn,"qos":qos,"topic":topic,"payload":payload,
             "retain":retain,"props":props_tla(props),"hascorr":corr.is_some(),
             "corr":corr.clone().unwrap_or_default(),"pfail":payload_fails}),
@@ -781,7 +790,7 @@ fn run_inner(cfg: &Cfg, ctx: &Shared) {
             }
             TopDec::Adv(to) => {
                 vclock::set_ms(to);
-                ctx.borrow_mut().rec(json!({"e":"adv","to":vclock::now_ms()}));
+                ctx.borrow_mut().rec(json!({"e":"adv","to":vclock::now_ms(),"spin":false}));
             }
             TopDec::Inject(bytes) => {
                 // nothing is listening: bytes for a transport that does not exist are dropped
@@ -792,6 +801,12 @@ fn run_inner(cfg: &Cfg, ctx: &Shared) {
                 return;
             }
             TopDec::Note(v) => ctx.borrow_mut().rec(v),
+            TopDec::SetNextId(id) => {
+                if let Some(nz) = core::num::NonZeroU16::new(id) {
+                    session.verif_set_next_packet_id(nz);
+                    ctx.borrow_mut().rec(json!({"e":"setid","id":id}));
+                }
+            }
             TopDec::Call(Step::Conn { healthy }) => {
                 {
                     let mut c = ctx.borrow_mut();
@@ -871,13 +886,17 @@ fn conn_loop(ctx: &Shared, conn: &mut Connection<'_, 'static, SimIo>, handles: &
                 ctx.borrow_mut().rec(v);
                 continue;
             }
+            TopDec::SetNextId(_) => {
+                ctx.borrow_mut().mismatch = Some("setid while a handle is held".into());
+                return;
+            }
             TopDec::Mismatch(m) => {
                 ctx.borrow_mut().mismatch = Some(m);
                 return;
             }
             TopDec::Adv(to) => {
                 vclock::set_ms(to);
-                ctx.borrow_mut().rec(json!({"e":"adv","to":vclock::now_ms()}));
+                ctx.borrow_mut().rec(json!({"e":"adv","to":vclock::now_ms(),"spin":false}));
                 continue;
             }
             TopDec::Inject(bytes) => {
@@ -921,14 +940,22 @@ fn conn_loop(ctx: &Shared, conn: &mut Connection<'_, 'static, SimIo>, handles: &
                 props,
                 corr,
                 payload_fails,
+                corr_first,
             } => {
                 let props: Vec<Property<'_>> = props.iter().map(to_property).collect();
                 let mut publication = Publication::bytes(s(topic), payload).qos(qos(*q));
-                if !props.is_empty() {
+                if *corr_first {
+                    if let Some(corr) = corr {
+                        publication = publication.correlate(corr);
+                    }
                     publication = publication.properties(&props);
-                }
-                if let Some(corr) = corr {
-                    publication = publication.correlate(corr);
+                } else {
+                    if !props.is_empty() {
+                        publication = publication.properties(&props);
+                    }
+                    if let Some(corr) = corr {
+                        publication = publication.correlate(corr);
+                    }
                 }
                 if *retain {
                     publication = publication.retain();
